@@ -435,7 +435,7 @@ def rule_slot_index(prog):
     copies of one another; if one of them becomes `idx <= 0`, entry 0 of extra_waiting is treated as the main slot:
     the wrong undecided key is dropped (it gets no outcome at all) and the decided one stays and fires a second time."""
     from kq.core import Resolver, const_val, is_const
-    res = RuleResult("R-WAIT-SLOT", "every test of the waiting-slot index in the outcome functions separates -1 from 0..", floor=6)
+    res = RuleResult("R-WAIT-SLOT", "every test of the waiting-slot index in the outcome functions separates -1 from 0..", floor=3)
     n = 0
     for name in ("waiting_into_hold", "waiting_into_tap", "waiting_into_timeout", "drop_waiting"):
         f = prog.fn_opt("kanata_keyberon::layout::Layout::" + name)
@@ -473,6 +473,11 @@ def rule_slot_index(prog):
                          "%s tests the slot index with `idx %s %s`; the sibling tests (and the callers, which pass -1 for the main slot and "
                          "0.. for extra_waiting) use `idx < 0`. Entry 0 of extra_waiting is then handled as the main slot: the key waiting "
                          "there is dropped without an outcome and the decided key fires again later" % (name, rv["op"], const_val(rv["b"])))
+        if k == 0 and name != "drop_waiting":
+            # six copies on the reviewed tree; a shared helper may reduce them, but each outcome function has to tell the main
+            # slot from extra_waiting somewhere (in itself or in a helper analysed inlined)
+            res.viol("anchor/%s/test" % name, f.loc, "Layout::%s takes a slot index but never tests it: the analysis lost sight of how "
+                     "the main waiting slot is told from the entries of extra_waiting" % name)
     return res
 
 
